@@ -245,7 +245,7 @@ var properties = map[string]*Property{
 			Dirs:       []string{"internal/rules/provider/filesystem"},
 			Files:      []string{"zz_verif_c18_test.go", "zz_verif_fsstart_test.go"},
 			Instrument: []string{"internal/rules/provider/filesystem/provider.go:yields"},
-			Quick:      Tier{Runs: 400, BudgetS: 60},
+			Quick:      Tier{Runs: 1600, BudgetS: 60},
 			Thorough:   Tier{Runs: 20000, BudgetS: 600},
 		}, {
 			Name: "provider-blob", Property: "C18", Pkg: "./internal/rules/provider/cloudblob", Test: "TestVerifC18Blob",
